@@ -27,93 +27,120 @@ TECHNIQUE = 'Coq proof (list induction, field, exp algebra) + symbolic-trace bri
 DESIGN_REF = 'DESIGN.md section 6 C12'
 
 
+def make_data(rng, c, other, n=None, stated=None):
+    n = n or rng.choice([1, 2, 2, 3, 4, 6])
+    temps = sorted(set(round(rng.uniform(273, 400), 2) for _ in range(n)))
+    rng.shuffle(temps)
+    Ea = rng.uniform(-60000, 120000)
+    stated = (rng.random() < 0.5) if stated is None else stated
+    on_line = rng.random() < 0.6
+    Tr, Pr = temps[0], gens.loguniform(rng, 1e-4, 1.0)
+    units = rng.choice(['kg/(m2*h*kPa)', 'SI', 'GPU'])
+    kgP, exps = [], []
+    for t in temps:
+        p = Pr * math.exp(-Ea / R * (1 / t - 1 / Tr))
+        if not on_line:
+            p *= math.exp(rng.uniform(-0.2, 0.2))
+        kgP.append(p)
+        pu = pv.Permeance(p).convert(units, c)
+        exps.append(IdealExperiment(name='x', temperature=t, component=c, permeance=pu, activation_energy=Ea if stated else None))
+        if rng.random() < 0.4:
+            exps.append(IdealExperiment(name='o', temperature=t + 1.0, component=other, permeance=pv.Permeance(0.001), activation_energy=1000.0))
+    return dict(temps=temps, Ea=Ea, stated=stated, on_line=on_line, Tr=Tr, Pr=Pr, units=units, kgP=kgP, exps=exps)
+
+
+def check(mem, c, other, d, rng):
+    """(ok, detail) for one query of `mem`, whose experiments are described by d; None = tie, skipped"""
+    temps, Ea, stated, on_line, Tr, Pr, kgP, exps = d['temps'], d['Ea'], d['stated'], d['on_line'], d['Tr'], d['Pr'], d['kgP'], d['exps']
+    ok, detail = True, ''
+    try:
+        if rng.random() < 0.35:
+            j = rng.randrange(len(temps))
+            q = mem.get_permeance(temps[j], c)
+            if not (rel_close(q.value, kgP[j], 1e-9) and q.units == 'kg/(m2*h*kPa)'):
+                ok, detail = False, 'at experiment temperature %r: %r %s, measured %r kg' % (temps[j], q.value, q.units, kgP[j])
+        else:
+            T = rng.uniform(260, 420)
+            dd = [abs(t - T) for t in temps]
+            j = dd.index(min(dd))
+            if sorted(dd)[0] == sorted(dd + [math.inf])[1]:
+                return None
+            if len(temps) == 1 and not stated:
+                try:
+                    mem.get_permeance(T, c)
+                    ok, detail = False, 'single experiment without activation energy accepted'
+                except ValueError:
+                    pass
+            else:
+                if stated:
+                    ea = Ea
+                else:
+                    xs = [1 / t for t in temps]
+                    ys = [math.log(p) for p in kgP]
+                    nn = len(xs)
+                    sl = (nn * sum(a * b for a, b in zip(xs, ys)) - sum(xs) * sum(ys)) / (nn * sum(a * a for a in xs) - sum(xs) ** 2)
+                    ea = -sl * R
+                    got = mem.calculate_activation_energy(c)
+                    if not rel_close(got, ea, 1e-6, 1e-3):
+                        ok, detail = False, 'regressed Ea %r, OLS gives %r' % (got, ea)
+                    if ok and on_line and not rel_close(got, Ea, 1e-6, 1e-2):
+                        ok, detail = False, 'Arrhenius-line data: regressed Ea %r, true %r' % (got, Ea)
+                q = mem.get_permeance(T, c)
+                e = kgP[j] * math.exp(-ea / R * (1 / T - 1 / temps[j]))
+                if ok and not (rel_close(q.value, e, 1e-7) and q.units == 'kg/(m2*h*kPa)'):
+                    ok, detail = False, 'T=%r nearest %r: got %r, Arrhenius from nearest gives %r' % (T, temps[j], q.value, e)
+                if ok and on_line:
+                    e0 = Pr * math.exp(-Ea / R * (1 / T - 1 / Tr))
+                    if not rel_close(q.value, e0, 1e-6):
+                        ok, detail = False, 'line data: value %r depends on the nearest experiment (line gives %r)' % (q.value, e0)
+                # selectivity and pure flux
+                if ok:
+                    mem2 = pv.Membrane(name='m', ideal_experiments=IdealExperiments(experiments=exps + [
+                        IdealExperiment(name='o2', temperature=333.0, component=other, permeance=pv.Permeance(0.002), activation_energy=5000.0)]))
+                    sw = mem2.get_ideal_selectivity(T, c, other, 'weight')
+                    sm = mem2.get_ideal_selectivity(T, c, other, 'molar')
+                    if not rel_close(sm, sw * other.molecular_weight / c.molecular_weight, 1e-9):
+                        ok, detail = False, 'molar selectivity %r != weight %r * M2/M1' % (sm, sw)
+                    pf = mem.get_estimated_pure_component_flux(T, c, permeate_pressure=1.5)
+                    if ok and not rel_close(pf, q.value * (c.get_vapor_pressure(T) - 1.5), 1e-9):
+                        ok, detail = False, 'pure flux %r' % pf
+                    try:
+                        mem.get_estimated_pure_component_flux(T, c, 280.0, 1.5)
+                        ok, detail = False, 'pure flux accepted both permeate conditions'
+                    except ValueError:
+                        pass
+    except Exception as ex:
+        ok, detail = False, 'raised %s: %s' % (type(ex).__name__, ex)
+    return ok, detail
+
+
 def oracle(rng, tier):
     comps = gens.builtin_components()
     while True:
         c = rng.choice(comps)
         other = rng.choice([k for k in comps if k.name != c.name])
-        n = rng.choice([1, 2, 2, 3, 4, 6])
-        temps = sorted(set(round(rng.uniform(273, 400), 2) for _ in range(n)))
-        rng.shuffle(temps)
-        Ea = rng.uniform(-60000, 120000)
-        stated = rng.random() < 0.5
-        on_line = rng.random() < 0.6
-        Tr, Pr = temps[0], gens.loguniform(rng, 1e-4, 1.0)
-        units = rng.choice(['kg/(m2*h*kPa)', 'SI', 'GPU'])
-        kgP = []
-        exps = []
-        for t in temps:
-            p = Pr * math.exp(-Ea / R * (1 / t - 1 / Tr))
-            if not on_line:
-                p *= math.exp(rng.uniform(-0.2, 0.2))
-            kgP.append(p)
-            pu = pv.Permeance(p).convert(units, c)
-            exps.append(IdealExperiment(name='x', temperature=t, component=c, permeance=pu, activation_energy=Ea if stated else None))
-            if rng.random() < 0.4:
-                exps.append(IdealExperiment(name='o', temperature=t + 1.0, component=other, permeance=pv.Permeance(0.001), activation_energy=1000.0))
-        mem = pv.Membrane(name='m', ideal_experiments=IdealExperiments(experiments=exps))
-        case = {'component': c.name, 'temps': temps, 'Ea': Ea, 'stated': stated, 'on_line': on_line, 'units': units, 'P_kg': kgP}
-        ok, detail = True, ''
-        try:
-            if rng.random() < 0.35:
-                j = rng.randrange(len(temps))
-                q = mem.get_permeance(temps[j], c)
-                if not (rel_close(q.value, kgP[j], 1e-9) and q.units == 'kg/(m2*h*kPa)'):
-                    ok, detail = False, 'at experiment temperature %r: %r %s, measured %r kg' % (temps[j], q.value, q.units, kgP[j])
-            else:
-                T = rng.uniform(260, 420)
-                d = [abs(t - T) for t in temps]
-                j = d.index(min(d))
-                if sorted(d)[0] == sorted(d + [math.inf])[1]:
-                    continue
-                if len(temps) == 1 and not stated:
-                    try:
-                        mem.get_permeance(T, c)
-                        ok, detail = False, 'single experiment without activation energy accepted'
-                    except ValueError:
-                        pass
+        d = make_data(rng, c, other)
+        mem = pv.Membrane(name='m', ideal_experiments=IdealExperiments(experiments=d['exps']))
+        history = 'fresh membrane'
+        for round_ in range(rng.choice([1, 1, 2, 3])):
+            if round_:
+                # the SAME membrane object after its data were corrected: same number of experiments, new measurements
+                d = make_data(rng, c, other, n=len(d['temps']), stated=d['stated'])
+                if rng.random() < 0.5:
+                    mem.ideal_experiments = IdealExperiments(experiments=d['exps'])
+                    history = 'same membrane object, experiments replaced (%d queries before)' % round_
                 else:
-                    if stated:
-                        ea = Ea
-                    else:
-                        xs = [1 / t for t in temps]
-                        ys = [math.log(p) for p in kgP]
-                        nn = len(xs)
-                        sl = (nn * sum(a * b for a, b in zip(xs, ys)) - sum(xs) * sum(ys)) / (nn * sum(a * a for a in xs) - sum(xs) ** 2)
-                        ea = -sl * R
-                        got = mem.calculate_activation_energy(c)
-                        if not rel_close(got, ea, 1e-6, 1e-3):
-                            ok, detail = False, 'regressed Ea %r, OLS gives %r' % (got, ea)
-                        if ok and on_line and not rel_close(got, Ea, 1e-6, 1e-2):
-                            ok, detail = False, 'Arrhenius-line data: regressed Ea %r, true %r' % (got, Ea)
-                    q = mem.get_permeance(T, c)
-                    e = kgP[j] * math.exp(-ea / R * (1 / T - 1 / temps[j]))
-                    if ok and not (rel_close(q.value, e, 1e-7) and q.units == 'kg/(m2*h*kPa)'):
-                        ok, detail = False, 'T=%r nearest %r: got %r, Arrhenius from nearest gives %r' % (T, temps[j], q.value, e)
-                    if ok and on_line:
-                        e0 = Pr * math.exp(-Ea / R * (1 / T - 1 / Tr))
-                        if not rel_close(q.value, e0, 1e-6):
-                            ok, detail = False, 'line data: value %r depends on the nearest experiment (line gives %r)' % (q.value, e0)
-                    # selectivity and pure flux
-                    if ok:
-                        mem2 = pv.Membrane(name='m', ideal_experiments=IdealExperiments(experiments=exps + [
-                            IdealExperiment(name='o2', temperature=333.0, component=other, permeance=pv.Permeance(0.002), activation_energy=5000.0)]))
-                        sw = mem2.get_ideal_selectivity(T, c, other, 'weight')
-                        sm = mem2.get_ideal_selectivity(T, c, other, 'molar')
-                        if not rel_close(sm, sw * other.molecular_weight / c.molecular_weight, 1e-9):
-                            ok, detail = False, 'molar selectivity %r != weight %r * M2/M1' % (sm, sw)
-                        pf = mem.get_estimated_pure_component_flux(T, c, permeate_pressure=1.5)
-                        if ok and not rel_close(pf, q.value * (c.get_vapor_pressure(T) - 1.5), 1e-9):
-                            ok, detail = False, 'pure flux %r' % pf
-                        try:
-                            mem.get_estimated_pure_component_flux(T, c, 280.0, 1.5)
-                            ok, detail = False, 'pure flux accepted both permeate conditions'
-                        except ValueError:
-                            pass
-        except Exception as ex:
-            ok, detail = False, 'raised %s: %s' % (type(ex).__name__, ex)
-        yield {'kind': '%s:%s:n=%d' % ('stated' if stated else 'unstated', units, len(temps)), 'case': case, 'ok': ok, 'detail': detail,
-               'nontrivial': len(temps) >= 2}
+                    del mem.ideal_experiments.experiments[:]
+                    mem.ideal_experiments.experiments.extend(d['exps'])
+                    history = 'same membrane object, experiment list edited in place (%d queries before)' % round_
+            r = check(mem, c, other, d, rng)
+            if r is None:
+                continue
+            ok, detail = r
+            case = {'component': c.name, 'temps': d['temps'], 'Ea': d['Ea'], 'stated': d['stated'], 'on_line': d['on_line'], 'units': d['units'],
+                    'P_kg': d['kgP'], 'history': history}
+            yield {'kind': '%s:%s:n=%d%s' % ('stated' if d['stated'] else 'unstated', d['units'], len(d['temps']), ':edited' if round_ else ''),
+                   'case': case, 'ok': ok, 'detail': detail + ('' if ok else ' [%s]' % history), 'nontrivial': len(d['temps']) >= 2}
 
 
 def correspondence(tier, seed):
